@@ -391,6 +391,67 @@ func runC04(tb report.TB, rep *report.Reporter, c c04Case) {
 	}
 	_ = rc.Close()
 
+	// ---- the same repository opened from a linked working tree (git worktree add) and from a sub-directory reads the
+	// same bug; what is committed there reads back in the main one
+	if c.Seed%4 == 1 {
+		wt := filepath.Join(w.Dir, "r0-linked-tree")
+		if res := RunGit(r0.Path, "-c", "user.name=x", "-c", "user.email=x@example.org", "commit", "-q", "--allow-empty", "-m", "init"); res.Code != 0 {
+			tb.Fatalf("harness: %s", res.Out)
+		}
+		if res := RunGit(r0.Path, "worktree", "add", "-q", wt, "-b", "linked"); res.Code != 0 {
+			tb.Fatalf("harness: worktree add: %s", res.Out)
+		}
+		sub := filepath.Join(wt, "docs", "deep")
+		_ = os.MkdirAll(sub, 0o755)
+		for _, from := range []string{wt, sub} {
+			lr, err := repository.OpenGoGitRepo(from, "git-bug", nil)
+			if err != nil {
+				if fail("linked-tree/cannot-open/"+Normalize(err.Error()), from+": "+err.Error()) {
+					return
+				}
+				continue
+			}
+			lb, err := bug.Read(lr, entity.Id(bugId))
+			if err != nil {
+				_ = lr.Close()
+				if fail("linked-tree/committed-bug-not-readable/"+Normalize(err.Error()), "opened from "+from+": "+err.Error()) {
+					return
+				}
+				continue
+			}
+			var viaLinked []refmodel.ROp
+			for _, op := range lb.Operations() {
+				viaLinked = append(viaLinked, ROpFromReal(op))
+			}
+			if a, dd := diffROps(expected, viaLinked); a != "" {
+				_ = lr.Close()
+				if fail("linked-tree/"+a, dd) {
+					return
+				}
+				continue
+			}
+			if from == wt {
+				// and the other way round
+				nb := bug.NewBug()
+				op := bug.NewCreateOp(r0.Authors[0], 88_000, "written from the linked tree", "m", nil)
+				op.Nonce = NonceFor(c.Seed, 7_100_000)
+				nb.Append(op)
+				if err := nb.Commit(lr); err != nil {
+					tb.Fatalf("harness: commit from the linked tree: %v", err)
+				}
+				if _, err := bug.Read(r0.Repo, nb.Id()); err != nil {
+					_ = lr.Close()
+					if fail("linked-tree/bug-committed-there-not-readable-in-the-main-tree/"+Normalize(err.Error()), err.Error()) {
+						return
+					}
+					continue
+				}
+			}
+			_ = lr.Close()
+		}
+		rep.Class("read-back-from-a-linked-working-tree", 1)
+	}
+
 	// ---- a cache that is already open on the second replica (a web UI, a bridge run) receives a later update
 	if c.Seed%2 == 0 {
 		_ = os.RemoveAll(filepath.Join(r1.Path, ".git", "git-bug", "cache")) // built from git by this session
